@@ -9,6 +9,7 @@ import TT.Driver.C10
 import TT.Driver.C11
 import TT.Driver.C12
 import TT.Driver.C13
+import TT.Driver.C14
 import TT.Driver.C15
 import TT.Driver.C16
 import TT.Driver.C17
@@ -34,6 +35,7 @@ def answer (line : String) : String :=
   | "c11" :: rest => c11 rest
   | "c12" :: rest => c12 rest
   | "c13" :: rest => c13 rest
+  | "c14" :: rest => c14 rest
   | "c15" :: rest => c15 rest
   | "c16" :: rest => c16 rest
   | "c17" :: rest => c17 rest
